@@ -11,6 +11,7 @@ PA(nm, ty, row) == [t |-> "arr", ty |-> ty, x |-> nm, shape |-> <<>>, rows |-> <
 TdmPre == << PA("p0", "float", <<F(1, 2), NegE(F(3, 2)), I(2)>>), PA("p1", "int", <<I(1), I(0)>>), PA("p2", "complex", <<Cpx(1, -2)>>),
              PA("p10", "float", <<F(1, 4), F(3, 4)>>), PA("p123", "int", <<I(7)>>),
              [t |-> "var", ty |-> "float", x |-> "v", e |-> F(3, 2)],
+             PA("W", "float", <<F(1, 4), F(3, 4)>>), PA("p1x", "int", <<I(7)>>),      \* ordinary arrays with exactly the data of p10 / p123 (passed by value)
              [t |-> "arr", ty |-> "float", x |-> "M", shape |-> <<>>, rows |-> << <<F(1, 2), I(2)>>, <<F(5, 2), NegE(I(1))>> >>] >>
 TdmItems == {
   PA("p7", "float", <<F(1, 8)>>),
@@ -20,6 +21,7 @@ TdmItems == {
   Stmt("Rgate", TRUE, <<Var("p2")>>, <<Kw("th", Var("p10")), Kw("w", Var("v"))>>, <<I(1)>>, "none"),
   Stmt("MeasureHomodyne", TRUE, <<>>, <<Kw("phi", Var("p1"))>>, <<I(0)>>, "none"),
   Stmt("D", TRUE, <<Var("v"), [t |-> "idx", x |-> "M", e |-> I(2)]>>, <<>>, <<I(1)>>, "none"),
+  Stmt("Kv", TRUE, <<Var("W"), Var("p10")>>, <<Kw("m", Var("p1x"))>>, <<I(1)>>, "none"),
   Stmt("T", TRUE, <<Par("a")>>, <<Kw("k", Var("p0"))>>, <<I(0)>>, "none"),
   [t |-> "for", ty |-> "int", x |-> "i", hdr |-> [t |-> "range", a |-> 0, b |-> 2, c |-> 0, hasc |-> FALSE],
      body |-> <<Stmt("Lp", TRUE, <<Var("p0"), Var("i")>>, <<>>, <<Var("i")>>, "none")>>]
@@ -35,5 +37,8 @@ ByValueOutsideTdm == (Done /\ ~IsTdm) => \A i \in 1..Len(P0.ops) : \A j \in 1..L
 PNamesNotParams == Done => \A p \in ParamSet(P0) : ~IsPType(p)
 TemplateOnlyWithBraces == Done => (IsTemplate(P0) <=> WrittenParams(script) # {})
 DataKept == (Done /\ IsTdm) => \A i \in 1..Len(script.body) : PDecl(i) => Has(P0.vars, script.body[i].x)
-RoundTripVars == (Done /\ IsTdm /\ InScope /\ Gen1.k = "ok") => SameVars(Gen1.prog, P0)
+\* every variable survives with its value (the reloaded program additionally holds the hoisted by-value arrays A0, A1, ...)
+RoundTripVars == (Done /\ IsTdm /\ InScope /\ Gen1.k = "ok") =>
+                   /\ \A i \in 1..Len(P0.vars) : Has(Gen1.prog.vars, P0.vars[i].n) /\ SameVal(Get(Gen1.prog.vars, P0.vars[i].n), P0.vars[i].v)
+                   /\ \A i \in 1..Len(Gen1.prog.vars) : Has(P0.vars, Gen1.prog.vars[i].n) \/ \E n \in 1..Len(ArrSlots(P0)) : Gen1.prog.vars[i].n = ArrName(n)
 =============================================================================
